@@ -172,6 +172,8 @@ IsHRRMsg(raw) == Len(raw) >= 38 /\ raw[1] = 2 /\ SubSeq(raw, 7, 38) = HRRMagic
 BodyOfType(exts, t) == LET I == {k \in DOMAIN exts : ~exts[k].bad /\ exts[k].type = t} IN
                        IF I = {} THEN <<-1>> ELSE exts[CHOOSE k \in I : TRUE].body
 HRRGroupOf(raw) == LET b == BodyOfType(SHExts(raw), 51) IN IF Len(b) = 2 THEN RdU16(b, 1) ELSE 0
+\* the body of the HelloRetryRequest's cookie extension (cookie<1..2^16-1> with its length prefix), <<>> when it has none
+HRRCookieOf(raw) == LET b == BodyOfType(SHExts(raw), 44) IN IF b = <<-1>> THEN <<>> ELSE b
 \* EncryptedExtensions: the retry configs travel as the body of an encrypted_client_hello extension
 EERetryOf(raw) == IF Len(raw) < 6 THEN <<>> ELSE
                   LET b == BodyOfType(ParseExts(raw, 7, Len(raw)), ExtECH) IN IF b = <<-1>> THEN <<>> ELSE b
@@ -230,11 +232,17 @@ S_SendParams(v, s) == [v EXCEPT !.pc = "sent", !.retry = IF v.accepted THEN <<>>
 (* obs: [flight : sequence of the client's records [typ, payload],
          chs    : the ClientHello messages of the flight,
          inners : what the server decrypted and reconstructed (hook H9): [k (which hello), enc, rec],
-         hrr    : 0 or the group named by the HelloRetryRequest]                                                            *)
-ObsInit == [flight |-> <<>>, chs |-> <<>>, inners |-> <<>>, hrr |-> 0]
+         hrr    : 0 or the group named by the HelloRetryRequest,
+         cookie : the body of the HelloRetryRequest's cookie extension, <<>> when it carries none]                           *)
+ObsInit == [flight |-> <<>>, chs |-> <<>>, inners |-> <<>>, hrr |-> 0, cookie |-> <<>>]
 O_Record(o, typ, payload) == [o EXCEPT !.flight = Append(o.flight, [typ |-> typ, payload |-> payload])]
 O_Hello(o, raw) == [O_Record(o, 22, raw) EXCEPT !.chs = Append(o.chs, raw)]
 O_Inner(o, enc, rec) == [o EXCEPT !.inners = Append(o.inners, [k |-> Len(o.chs), enc |-> enc, rec |-> rec])]
+\* the server opened a hello (rec = <<>>: not reconstructed yet / never) and then reconstructed the inner hello
+O_Opened(o, enc) == O_Inner(o, enc, <<>>)
+O_Reconstructed(o, rec) == IF o.inners = <<>> THEN o ELSE [o EXCEPT !.inners[Len(o.inners)].rec = rec]
+\* the HelloRetryRequest: the group it asks for and the body of its cookie extension (<<>> = none)
+O_HRR(o, group, cookieBody) == [o EXCEPT !.hrr = group, !.cookie = cookieBody]
 
 VARIABLES scn, cli, srv, obs
 mvars == <<scn, cli, srv, obs>>
@@ -252,22 +260,29 @@ P_NoLeak(o, s) == {<<"plaintext-record-contains-ServerName", i>> : i \in {i \in 
 \*      (h: the parsed hello, e: its outer ECH extension, c: the client's configuration, k: 1 = first hello).
 \*      The ECH extension of a second hello is judged only when the server accepted the offer (strict): what a client
 \*      puts there after a HelloRetryRequest of a server that cannot decrypt is outside the property.
-OuterProblems(h, e, c, k, strict) ==
+\*      A second hello echoes the cookie of the HelloRetryRequest (RFC 8446 4.2.2), whoever the server is.
+OuterProblems(h, e, c, k, strict, cookieBody) ==
   IF ~h.ok THEN {"outer-hello-unparsable"} ELSE
      (IF SNIOf(h) # c.pubname THEN {"outer-sni-is-not-the-public-name"} ELSE {})
+  \cup (IF k > 1 /\ cookieBody # <<>> /\ (~HasExtT(h, 44) \/ (HasExtT(h, 44) /\ ExtBody(h, 44) # cookieBody))
+        THEN {"second-hello-does-not-echo-the-cookie"} ELSE {})
   \cup (IF ~strict THEN {}
         ELSE IF ~e.ok THEN {"outer-ech-extension-missing-or-malformed"}
         ELSE (IF e.id # c.id THEN {"outer-ech-config-id"} ELSE {})
           \cup (IF e.kdf # PickSuite(c).kdf \/ e.aead # PickSuite(c).aead THEN {"outer-ech-cipher-suite"} ELSE {})
           \cup (IF k = 1 /\ Len(e.enc) # 32 THEN {"outer-ech-enc-length"} ELSE {})
           \cup (IF k > 1 /\ e.enc # <<>> THEN {"second-hello-repeats-enc"} ELSE {}))
-P_Outer(o, s) == UNION {OuterProblems(ParseHello(o.chs[k]), OuterECHOf(ParseHello(o.chs[k])), Cfg(s), k, k = 1 \/ SrvDecrypts(s)) : k \in DOMAIN o.chs}
+P_Outer(o, s) == UNION {OuterProblems(ParseHello(o.chs[k]), OuterECHOf(ParseHello(o.chs[k])), Cfg(s), k, k = 1 \/ SrvDecrypts(s), o.cookie) : k \in DOMAIN o.chs}
 
 \* ---- C15 c: the inner hello the server obtains names ServerName, is an inner hello, offers TLS 1.3 only, and is exactly the
 \*      reference reconstruction; every compressed extension has the same body inside and outside
 \*      (inn: [k, enc, rec]; oh: parsed outer hello k; e: parsed encoded inner; h: parsed reconstructed inner)
-InnerProblems(inn, oh, e, h, s, hrrGroup) ==
+InnerProblems(inn, oh, e, h, s, hrrGroup, cookieBody) ==
   IF ~oh.ok THEN {"outer-hello-unparsable"} ELSE
+  \* the server opened the payload but produced no inner hello: the reference says why it could not (or that it should have)
+  IF inn.rec = <<>> THEN (IF ~e.ok THEN {"encoded-inner-malformed"}
+                          ELSE IF ~ExpandOK(e, oh) THEN {"ech-outer-extensions-illegal-reference"}
+                          ELSE {"server-did-not-reconstruct-a-legal-encoded-inner"}) ELSE
   IF ~h.ok THEN {"inner-hello-unparsable"} ELSE
      (IF SNIOf(h) # s.sname THEN {"inner-hello-does-not-name-ServerName"} ELSE {})
   \cup (IF ~HasExtT(h, ExtECH) \/ (HasExtT(h, ExtECH) /\ ExtBody(h, ExtECH) # <<1>>) THEN {"inner-hello-lacks-inner-ech-marker"} ELSE {})
@@ -282,8 +297,12 @@ InnerProblems(inn, oh, e, h, s, hrrGroup) ==
           \cup (IF OuterECHOf(oh).ok /\ Len(OuterECHOf(oh).payload) # Len(inn.enc) + TagLen THEN {"payload-length"} ELSE {}))
   \* after a HelloRetryRequest the inner hello must answer it: exactly one share, of the requested group (RFC 8446 4.1.4)
   \cup (IF inn.k = 2 /\ KeyShareGroups(h) # <<hrrGroup>> THEN {"second-inner-hello-key-share-does-not-answer-hrr"} ELSE {})
+  \* ... and echoes its cookie: the compressed extension list of the second inner hello expands to the values of the second
+  \* outer hello INCLUDING the cookie (the backend server sees the cookie the client-facing server handed out)
+  \cup (IF inn.k = 2 /\ cookieBody # <<>> /\ (~HasExtT(h, 44) \/ (HasExtT(h, 44) /\ ExtBody(h, 44) # cookieBody))
+        THEN {"second-inner-hello-does-not-echo-the-cookie"} ELSE {})
 P_Inner(o, s) == UNION {InnerProblems(o.inners[j], ParseHello(o.chs[o.inners[j].k]), ParseEncodedInner(o.inners[j].enc),
-                                      ParseHello(o.inners[j].rec), s, o.hrr) : j \in DOMAIN o.inners}
+                                      ParseHello(o.inners[j].rec), s, o.hrr, o.cookie) : j \in DOMAIN o.inners}
 
 \* ---- a server holding the key obtains an inner hello from every hello it has processed (nHellos of them); another server none
 P_Decrypt(o, s, nHellos) ==
